@@ -666,6 +666,14 @@ def sortedStrict : List Nat → Bool
   | [_] => true
   | a :: b :: rest => decide (a < b) && sortedStrict (b :: rest)
 
+/-- insert into a strictly increasing list, keeping it so (a value already present is not repeated) -/
+def insertUniq (a : Nat) : List Nat → List Nat
+  | [] => [a]
+  | b :: bs => if a < b then a :: b :: bs else if a = b then b :: bs else b :: insertUniq a bs
+
+/-- `numpy.unique`: the distinct values in increasing order -/
+def npUnique (l : List Nat) : List Nat := l.foldr insertUniq []
+
 /-- what `validate(check_comprehensive_unique=True)` checks (dtype aside): no entry under the
 common value, row ids strictly increasing, no row under two values of the same higher coordinates -/
 def validates (i : IIndex) : Bool :=
